@@ -91,6 +91,10 @@ func c04Decl(variant int, opts flags.Options) *decl.Decl {
 	if variant == 2 {
 		top.SubOptional = false // a command is required: unknown words reach the unknown-command diagnosis
 	}
+	if variant == 3 {
+		// built through the API: an executable command whose Execute returns an ErrHelp-typed error of its own
+		top.Cmds = append(top.Cmds, &decl.Cmd{Field: "Usage", Name: "usage", Exec: true})
+	}
 	if variant == 1 {
 		// a described command whose name is the longest in bytes but not in characters (help listing arithmetic)
 		top.Cmds = append(top.Cmds, &decl.Cmd{Field: "Dem", Name: "démarrer", Desc: "start it"})
@@ -100,6 +104,9 @@ func c04Decl(variant int, opts flags.Options) *decl.Decl {
 			&decl.Opt{Field: "Req", Short: "R", Long: "req", Type: decl.TString, Required: "yes"},
 			&decl.Opt{Field: "PB", Short: "b", Long: "pbool", Type: decl.TPBool},
 			&decl.Opt{Field: "MB", Short: "M", Long: "mapbool", Type: decl.TMapSB},
+			&decl.Opt{Field: "MLS", Long: "levelkeys", Type: decl.TMapLS},
+			&decl.Opt{Field: "MSL", Long: "levelvals", Type: decl.TMapSL},
+			&decl.Opt{Field: "PIs", Long: "pints", Type: decl.TPInts},
 		)
 	}
 	return (&decl.Decl{Top: top, Options: opts}).Finish()
@@ -111,7 +118,10 @@ var c04Tokens = []string{
 	"", "-", "--", "---", "-a", "-s", "-sval", "-s=", "-s=v", "--str", "--str=", `--str="q"`, `--str="`, "-i", "-i5", "-i=x", "-5", "-i-5",
 	"-m", "-mk:1", "-mk", "-mk:x", "-lx", "-c", "-c=1", "-k", "-e13", "-e12", "-Ubad", "-Uok", "-P", "nope", "-Cx", "-Cz", "-O", "-O=1",
 	"-é", "-aé5", "-B", "--boolchoice", "--help", "-h", "--=x", "-=", `-"`, "cmd", "7", "w", "-z", "--all=1", "-a\xff", "\xff", "--unk", "-x",
-	"-r", "--refuse", "-ar", "é1", "añadir", "日本語", "cmdé",
+	"-r", "--refuse", "-ar", "é1", "añadir", "日本語", "cmdé", "usage",
+	"--levelkeys=k:v", "--levelvals=k:v", "--pints=-3", "-v\x00", "--50%off",
+	"x234567890123456789012345678901", "x2345678901234567890123456789012", "x23456789012345678901234567890123", // 31, 32, 33 characters
+	"y234567890123456789012345678901234567890123456789012345678901234", "y2345678901234567890123456789012345678901234567890123456789012345", // 64, 65
 }
 
 func init() {
@@ -119,7 +129,7 @@ func init() {
 	flagBits := []flags.Options{flags.HelpFlag, flags.PassDoubleDash, flags.IgnoreUnknown, flags.PrintErrors, flags.PassAfterNonOption}
 	body := func(c *explore.Ctx) {
 		part := c.Choose(2)    // 0: one arbitrary byte string as a token; 1: vectors of pathological tokens
-		variant := c.Choose(3) // declaration
+		variant := c.Choose(4) // declaration
 		base := c.Choose(2)    // None | Default
 		var opts flags.Options
 		if base == 1 {
@@ -175,7 +185,15 @@ func init() {
 		cfg := &ref.Config{D: d}
 		res := ref.Run(cfg, argv)
 		recordStates(c, key, res, nil)
-		b := d.BuildTags()
+		var b *decl.Built
+		if variant == 3 {
+			b = d.BuildAPI()
+			for _, st := range b.Execs {
+				st.Err = &flags.Error{Type: flags.ErrHelp, Message: "USAGE-OF-THE-COMMAND"}
+			}
+		} else {
+			b = d.BuildTags()
+		}
 		if b.Err != nil {
 			c.Fail("setup-error", b.Err.Error())
 			return
@@ -269,9 +287,9 @@ func init() {
 		Body:       body,
 		Setup:      c04Setup,
 		DevBound:   func(bool) int { return 2 },
-		Rule: "three declarations covering every option kind (flags, scalars, map, slice, four callback signatures incl. one that always returns an error, Unmarshaler, ValueValidator, choices on a string and on a bool flag, optional argument, non-ASCII and digit short names, " +
-			"interface-, array-, pointer-to-bool typed fields, a required option, a command with an int positional; the third declaration makes the command mandatory so that unknown words reach the unknown-command diagnosis); option sets: None and Default with up to 2 of the 5 flags toggled (32 sets); as one more deviation the same parser first fails a parse because an environment default does not convert (must be ErrMarshal) and is then used again; inputs: (i) every byte string of length <= 4 (quick) / <= 5 (thorough) " +
-			"over {- = a s x \" \\ 0xC3 0xA9 : 5} as a token alone, after -s, after a command word, after --; (ii) every vector of <= 2 (quick) / <= 3 (thorough) tokens over 61 pathological tokens; oracle: returns normally, error nil or typed as the CLM's fault says, " +
+		Rule: "four declarations covering every option kind (flags, scalars, map, slice, four callback signatures incl. one that always returns an error, Unmarshaler, ValueValidator, choices on a string and on a bool flag, optional argument, non-ASCII and digit short names, " +
+			"interface-, array-, pointer-to-bool typed fields, a required option, a command with an int positional; the third declaration makes the command mandatory so that unknown words reach the unknown-command diagnosis (words of 31..33 and 64..65 characters included); the fourth is built through the API and has an executable command whose Execute returns an ErrHelp-typed error of its own; maps with named string key / value types and []*int are among the option types); option sets: None and Default with up to 2 of the 5 flags toggled (32 sets); as one more deviation the same parser first fails a parse because an environment default does not convert (must be ErrMarshal) and is then used again; inputs: (i) every byte string of length <= 4 (quick) / <= 5 (thorough) " +
+			"over {- = a s x \" \\ 0xC3 0xA9 : 5} as a token alone, after -s, after a command word, after --; (ii) every vector of <= 2 (quick) / <= 3 (thorough) tokens over 72 pathological tokens; oracle: returns normally, error nil or typed as the CLM's fault says, " +
 			"stdout/stderr deltas exactly as PrintErrors prescribes; distinct = distinct (declaration, option set, error class, wrote stdout?, wrote stderr?, model fault)",
 		Assumptions:  []string{"os.Stdout / os.Stderr are swapped for files per worker process and offset deltas read per leaf", "declarations reflect.StructOf cannot build (unexported fields in positional structs) are outside the space"},
 		RequiredHits: []string{"print-errors", "help-printed", "foreign-positional-error", "err:unknown flag", "err:expected argument", "err:marshal", "err:no argument for bool", "err:invalid choice", "err:help", "err:required", "err:ok"},
